@@ -10,6 +10,8 @@
     namesok (<op> …) <schemas-vir>            -> closed=<b> side=<b> hyp=<b>   (hypotheses of C05_names)
     c05chains                                 -> <lang>=<Pass>+<Pass>…;…  (the chains the theorems are about)
     c05pass InferEntrypoint <schemas-vir>     -> ok <schemas-vir>
+    c05prefix <lang> <k> <schemas-vir>        -> outcome of the first k passes of the chain, which must all
+                                                 have a proved preservation lemma (else `beyond-proven-prefix`)
     c05witness list | c05witness <name>       -> ok <names…> | <request line of the witness>
 -/
 import Cog.IR.Vir
@@ -19,6 +21,7 @@ import Cog.Closed.Witness
 import Cog.Closed.Seq
 import Cog.Closed.InferEntrypoint
 import Cog.Gen.Chains
+import Cog.Closed.Chains
 namespace Cog.Drv
 open Cog Cog.IR Cog.Closed
 
@@ -143,6 +146,19 @@ def c05chainsLine : String :=
     l ++ "=" ++ "+".intercalate (((Cog.Gen.Chains.chainOf l).getD []).map passGoName)
   let two := ["jsonschema", "openapi"].map fun l => l ++ "=DisjunctionWithNullToOptional+InferEntrypoint"
   ";".intercalate (five ++ two)
+
+def c05prefixLine (rest : String) : String :=
+  match rest.splitOn " " with
+  | lang :: k :: more =>
+    match Cog.Gen.Chains.chainOf lang, k.toNat?, Sexp.parse (" ".intercalate more) with
+    | some ps, some k, some sx =>
+      if k > (ps.takeWhile Cog.Closed.provenPass).length then "beyond-proven-prefix"
+      else match Vir.schemasIn sx with
+        | some S =>
+          Vir.outcomeOut Vir.schemasOut (Cog.Passes.runChain (ps.take k) S)
+        | none => "bad-vir"
+    | _, _, _ => "bad-request"
+  | _ => "bad-request"
 
 def c05passLine (rest : String) : String :=
   match rest.splitOn " " with
